@@ -91,6 +91,7 @@ def oracle_chain(case, rec):
     P = [tuple(p) for p in case['P']]
     n = len(P)
     pts = np.array(P, dtype=float) * (2.0 ** case['k'])
+    pts.setflags(write=False)            # like a memory-mapped trace
     rec.tag('chain:' + case['family'])
     for name, f, Q in (('lower', L.convex_hull.graham_scan_lower, P),
                        ('upper', L.convex_hull.graham_scan_upper, [(a, -b) for a, b in P])):
@@ -181,8 +182,16 @@ def brute_hull(P):
 def planar_cases(draw, tier):
     g = draw(st.sampled_from([3, 3, 5, 5, 20, 1000, 2 ** 24]))
     n = draw(st.integers(3, min(g * g, 12 if tier == 'quick' else 40)))
-    mode = draw(st.sampled_from(['free', 'free', 'free', 'line', 'line+1']))
-    if mode == 'free':
+    mode = draw(st.sampled_from(['free', 'free', 'free', 'line', 'line+1', 'steep']))
+    if mode == 'steep':     # nearly parallel, very steep directions from the pivot (angles closer than an ulp)
+        s0 = draw(st.sampled_from([10 ** 9, 10 ** 8, 3 * 10 ** 9]))
+        xs_ = draw(st.lists(st.integers(0, 8), min_size=n, max_size=n, unique=True)) if n <= 9 else list(range(n))
+        P = [(xv, s0 * xv + draw(st.integers(0, 6))) for xv in xs_]
+        P[draw(st.integers(0, len(P) - 1))] = (max(xs_) + draw(st.integers(1, 5)), 0)
+        P = list(dict.fromkeys(P))
+        if len(P) < 3:
+            P = [(0, 0), (1, s0), (5, 0)]
+    elif mode == 'free':
         P = draw(st.lists(st.tuples(st.integers(0, g - 1), st.integers(0, g - 1)), min_size=n, max_size=n, unique=True))
     else:
         dx, dy = draw(st.sampled_from([(1, 0), (0, 1), (1, 1), (2, 1), (1, -1), (3, 2)]))
@@ -206,6 +215,7 @@ def oracle_planar(case, rec):
     P = [tuple(p) for p in case['P']]
     n = len(P)
     pts = np.array(P, dtype=float) * (2.0 ** case['k'])
+    pts.setflags(write=False)
     out = rec.call(4 * n + 8, L.convex_hull.graham_scan, pts, _site='convex_hull.graham_scan')
     verts, V, B = brute_hull(P)
     general = all(cross(P[i], P[j], P[k]) != 0 for i, j, k in itertools.combinations(range(n), 3))
